@@ -37,6 +37,8 @@ const U_POLL: u64 = 103;
 const U_DROPSLOT: u64 = 105;
 const U_DROPRT: u64 = 106;
 const U_WRAP: u64 = 107;
+const U_AWAIT: u64 = 108;
+const U_AWAITED: u64 = 109;
 
 const N_RES: usize = 6; // 0 file, 1 pipe, 2 tcp, 3 udp, 4 unix, 5 probe pipe
 
@@ -68,6 +70,30 @@ impl Future for Gate {
 struct Slot {
     fut: Option<Pin<Box<dyn Future<Output = ()>>>>,
     sh: Rc<Shared>,
+    res: usize,
+    kind: u64,
+}
+
+/// what one poll of a slot produced
+#[derive(Default, Clone, Copy)]
+struct Polled {
+    bufs: u64,
+    err: u64, // last error code, 0 = none
+    other: bool, // Ok(None) / end of stream
+}
+
+/// Heartbeat of the interpreter (ms since start); a watchdog thread aborts the
+/// process when a program makes no step for WATCHDOG_MS (the runner then records
+/// the case as aborted and resumes with the next one).
+static BEAT: std::sync::atomic::AtomicU64 = std::sync::atomic::AtomicU64::new(0);
+const WATCHDOG_MS: u64 = 40_000;
+fn now_ms() -> u64 {
+    use std::sync::OnceLock;
+    static T0: OnceLock<Instant> = OnceLock::new();
+    T0.get_or_init(Instant::now).elapsed().as_millis() as u64
+}
+fn beat() {
+    BEAT.store(now_ms(), std::sync::atomic::Ordering::Relaxed);
 }
 
 struct Held {
@@ -302,6 +328,7 @@ impl World {
         let t0 = Instant::now();
         let mut quiet = 0;
         while t0.elapsed() < Duration::from_millis(400) {
+            beat();
             let busy = self.dispatched > self.finished;
             let n = self.drive(if busy { 2 } else { 0 });
             if n == 0 && self.dispatched <= self.finished {
@@ -458,7 +485,7 @@ impl World {
             }
             _ => return Err(BadCase),
         };
-        self.slots.push(Slot { fut: Some(fut), sh });
+        self.slots.push(Slot { fut: Some(fut), sh, res: r, kind });
         Ok(())
     }
 
@@ -477,10 +504,12 @@ impl World {
         }));
     }
 
-    fn poll_slot(&mut self, s: usize) {
+    fn poll_slot(&mut self, s: usize) -> Polled {
+        let mut pd = Polled::default();
         if s >= self.slots.len() || self.slots[s].fut.is_none() || self.rt.is_none() {
-            return;
+            return pd;
         }
+        beat();
         self.user(U_POLL, s as u64, 0);
         let sh = self.slots[s].sh.clone();
         sh.want.set(true);
@@ -497,14 +526,24 @@ impl World {
         loop {
             let it = sh.out.borrow_mut().pop_front();
             match it {
-                Some(Item::Buf(b, off, n)) => self.hold(b, off, n, s as u64),
-                Some(Item::Nothing) => self.observe([7, s as u64, 0, 0, 0, 0]),
+                Some(Item::Buf(b, off, n)) => {
+                    pd.bufs += 1;
+                    self.hold(b, off, n, s as u64)
+                }
+                Some(Item::Nothing) => {
+                    pd.other = true;
+                    self.observe([7, s as u64, 0, 0, 0, 0])
+                }
                 Some(Item::Err(e)) => {
+                    pd.err = errcode(&e);
                     self.last_err = errcode(&e);
                     self.observe([3, s as u64, errcode(&e), 0, 0, 0]);
                     drop(e);
                 }
-                Some(Item::End) => self.observe([8, s as u64, 0, 0, 0, 0]),
+                Some(Item::End) => {
+                    pd.other = true;
+                    self.observe([8, s as u64, 0, 0, 0, 0])
+                }
                 None => break,
             }
         }
@@ -512,6 +551,63 @@ impl World {
             self.slots[s].fut = None;
             self.drain();
         }
+        pd
+    }
+
+    /// bytes (datagrams) the OS holds for the reading end of resource r right now
+    fn os_pending(&self, r: usize) -> bool {
+        let fd = match self.res[r].as_ref() {
+            Some(Res::File(..)) => return true,
+            Some(Res::Pipe(x, _)) => x.as_raw_fd(),
+            Some(Res::Tcp(x, _)) => x.as_raw_fd(),
+            Some(Res::Udp(x, _)) => x.as_raw_fd(),
+            Some(Res::Unix(x, _)) => x.as_raw_fd(),
+            None => return false,
+        };
+        let mut n: libc::c_int = 0;
+        let rc = unsafe { libc::ioctl(fd, libc::FIONREAD, &mut n) };
+        rc == 0 && n > 0
+    }
+
+    /// the consumer awaits next(): poll / let the driver run until the slot
+    /// yields something or the round budget is used up.
+    /// mode 0: stop at the first item of any kind; mode 1: ResourceBusy items are
+    /// stale news (the consumer released buffers since), keep going for data.
+    fn await_slot(&mut self, s: usize, mode: u64) {
+        if s >= self.slots.len() || self.slots[s].fut.is_none() || self.rt.is_none() {
+            return;
+        }
+        self.drive(0);
+        let (r, kind) = (self.slots[s].res, self.slots[s].kind);
+        let pending = self.os_pending(r) as u64;
+        let sole = (self.slots.iter().filter(|x| x.fut.is_some() && x.res == r).count() == 1) as u64;
+        self.user(U_AWAIT, s as u64 | kind << 16, pending | sole << 1 | (mode & 1) << 2);
+        let (mut outcome, mut err, mut busy_seen) = (0u64, 0u64, 0u64);
+        for round in 0..80 {
+            let pd = self.poll_slot(s);
+            if pd.bufs > 0 {
+                outcome = 1;
+                break;
+            }
+            if pd.err != 0 {
+                if mode == 1 && pd.err == 1 && busy_seen < 3 && self.slots[s].fut.is_some() {
+                    busy_seen += 1;
+                } else {
+                    outcome = 2;
+                    err = pd.err;
+                    break;
+                }
+            } else if pd.other {
+                outcome = 3;
+                break;
+            }
+            if self.slots[s].fut.is_none() {
+                outcome = 3;
+                break;
+            }
+            self.drive(if round < 4 { 0 } else { 1 });
+        }
+        self.user(U_AWAITED, outcome, err | pending << 8 | busy_seen << 16);
     }
 
     fn drop_slot(&mut self, s: usize) {
@@ -624,6 +720,7 @@ impl World {
         self.muted = true;
         let mut ok = 0u64;
         for _ in 0..cycles {
+            beat();
             self.arrive(5, 1);
             let s = self.slots.len();
             let h = self.held.len();
@@ -696,6 +793,7 @@ fn run(case: &[u64]) -> Result<Vec<u64>, BadCase> {
     };
 
     for (op, a, b) in steps {
+        beat();
         match op {
             1 | 2 | 11 | 12 | 14 => {
                 if w.rt.is_none() {
@@ -716,7 +814,10 @@ fn run(case: &[u64]) -> Result<Vec<u64>, BadCase> {
                 w.arrive(r, b);
                 w.drive(0);
             }
-            4 => w.poll_slot(a as usize),
+            4 => {
+                w.poll_slot(a as usize);
+            }
+            15 => w.await_slot(a as usize, b),
             5 => {
                 w.drive(a.min(5));
             }
@@ -816,5 +917,16 @@ fn run(case: &[u64]) -> Result<Vec<u64>, BadCase> {
 }
 
 fn main() {
+    beat();
+    std::thread::spawn(|| {
+        loop {
+            std::thread::sleep(Duration::from_millis(200));
+            let last = BEAT.load(std::sync::atomic::Ordering::Relaxed);
+            if now_ms().saturating_sub(last) > WATCHDOG_MS {
+                // a step (a poll of next(), a driver poll) did not return
+                std::process::abort();
+            }
+        }
+    });
     main_loop(run);
 }
